@@ -45,7 +45,7 @@ func runC11(p *core.Prog, r *core.Report) {
 					}
 					n++
 					oc := core.NewOrderCtx(in)
-					key := fmt.Sprintf("%s#%s-%s", name, oc.OrdKey(x.X), oc.OrdKey(x.Y))
+					key := fmt.Sprintf("%s#%s-%s", name, core.SrcName(x.X), core.SrcName(x.Y))
 					if oc.ProveLE(x.Y, x.X, 0) {
 						r1.OK(key, p.InstrPos(in), "subtrahend <= minuend follows from: "+oc.Facts())
 					} else if why, ok := readCountWithinClampedBuffer(fn, x, oc); ok {
@@ -62,7 +62,7 @@ func runC11(p *core.Prog, r *core.Report) {
 					if src.Kind() != types.Uint64 && src.Kind() != types.Uint {
 						continue
 					}
-					key := fmt.Sprintf("%s#%s(%s)", name, dst.Name(), x.X.Name())
+					key := fmt.Sprintf("%s#%s(%s)", name, dst.Name(), core.SrcName(x.X))
 					gf := core.Flow(fn, []core.Guard{core.G("not-too-big", core.ErrNil, fst+"checkTooBigRange")})
 					if gf.Passed(gf.At(in), 0) {
 						r2.OK(key, p.InstrPos(in), "dominated by checkTooBigRange()==nil")
